@@ -49,4 +49,14 @@ DetailedBalanceAt(inst, i, j) ==
   LET a == RMul(RMul(R(inst.V[i + 1]), PowR(inst.base, -2 * inst.k[i + 1])), QDecl(inst, i, j))
       b == RMul(RMul(R(inst.V[j + 1]), PowR(inst.base, -2 * inst.k[j + 1])), QDecl(inst, j, i))
   IN REq(a, b)
+
+(* wide energy ranges: an off-diagonal entry as  m * base^e / 36  with m a positive integer not divisible by base
+   (the formula gives m0 = 36 D S / (h V_i), e0 = min(k_i - k_j, cap); powers of base are moved from m0 into e0) *)
+RECURSIVE StripBase(_, _, _)
+StripBase(m, e, base) == IF m # 0 /\ m % base = 0 THEN StripBase(m \div base, e + 1, base) ELSE <<m, e>>
+QWide(inst, i, j) ==
+  LET num == 36 * inst.D * inst.S[<<i, j>>]
+      den == inst.h[<<i, j>>] * inst.V[i + 1]
+  IN IF num % den # 0 THEN <<0, 0>>
+     ELSE StripBase(num \div den, Capped(inst.k[i + 1] - inst.k[j + 1], inst.cap), inst.base)
 =============================================================================
